@@ -21,6 +21,28 @@ def matrix(patch):
             if r and r.group(1) not in res[cur]: res[cur].append(r.group(1))
     ran = len(set(re.findall(r"^property=(C\d+)", out, re.M)))
     return {"reported_by": res, "checks_finished": ran}
+def rebase(src):
+    """If patch.diff no longer applies to /repo's HEAD (a fix: commit landed since the sub-agent's worktree was made),
+    carry it over with a three-way apply and store the result; returns a note."""
+    pf = os.path.join(src, "patch.diff")
+    w = subprocess.run(["mktemp", "-d", "/tmp/rb.XXXXXX"], capture_output=True, text=True).stdout.strip()
+    subprocess.run(["git", "-C", "/repo", "worktree", "add", "-q", "--detach", w + "/r", "HEAD"], check=True)
+    note = ""
+    try:
+        if subprocess.run(["git", "-C", w + "/r", "apply", "--check", pf], capture_output=True).returncode != 0:
+            r = subprocess.run(["git", "-C", w + "/r", "apply", "--3way", pf], capture_output=True, text=True)
+            if r.returncode == 0:
+                subprocess.run(["git", "-C", w + "/r", "add", "-A"], check=True)
+                d = subprocess.run(["git", "-C", w + "/r", "diff", "--cached", "HEAD"], capture_output=True, text=True).stdout
+                shutil.copy(pf, pf + ".orig")
+                open(pf, "w").write(d)
+                note = "rebased onto the repaired tree (three-way apply)"
+            else:
+                note = "does not apply to HEAD, three-way apply failed: " + r.stderr.strip()[-300:]
+    finally:
+        subprocess.run(["git", "-C", "/repo", "worktree", "remove", "--force", w + "/r"])
+        shutil.rmtree(w, ignore_errors=True)
+    return note
 if kind == "seeded":
     first = int(sys.argv[3])
     rec_path = os.path.join(V, "validation", "batch6_seeded_first_run.json")
@@ -30,6 +52,8 @@ if kind == "seeded":
         nm = f"{pid}-{first + k - 1}"
         if not os.path.exists(os.path.join(src, "patch.diff")):
             print(nm, "nothing delivered"); continue
+        note = rebase(src)
+        if note: print(nm, note)
         p = subprocess.run([os.path.join(V, "tools", "confirm_seed.sh"), src, pid, nm], capture_output=True, text=True)
         print(p.stdout.strip()[-600:])
         if p.returncode != 0:
@@ -47,6 +71,8 @@ else:
     for d in sorted(os.listdir(base)) if os.path.exists(base) else []:
         src = os.path.join(base, d)
         if not os.path.exists(os.path.join(src, "patch.diff")): continue
+        note = rebase(src)
+        if note: print(pid, d, note)
         dst = os.path.join(V, "refactors", pid, d)
         os.makedirs(dst, exist_ok=True)
         for f in ("patch.diff", "notes.md"):
